@@ -69,3 +69,6 @@ pub fn t_val(v: Val) -> Result<Val> {
 }
 pub fn cm(v: &mut Val) { v.0 = format!("cm({})", v.0); }
 pub fn ct(v: &mut Val) { v.0 = format!("ct({})", v.0); }
+
+impl Proj for darling::util::Flag { fn proj(&self) -> Value { json!(format!("f:{}", self.is_present())) } }
+impl Marked for darling::util::Flag { fn marked(_m: &str, _f: &str) -> Self { darling::util::Flag::default() } }
